@@ -10,7 +10,7 @@ RULE = ('Hypothesis draws a client kind (Client under the baton scheduler, Async
         'virtual-time loop), a transport list, and a fault script applied at the client I/O '
         'boundary in front of the real server of the same kind: the n-th HTTP request is refused, '
         'answered with an error status (with / without JSON), with an undecodable / empty / '
-        'non-OPEN body, hangs, or is dropped after the server processed it; the WebSocket connect '
+        'non-OPEN body, hangs, or is dropped after the server processed it (also addressed to the n-th POST only: a failed POST must end the connection); the WebSocket connect '
         'is refused; the n-th frame received is dropped, replaced (wrong probe answer, garbage), '
         'swallowed or followed by silence; a send drops the connection - plus an application '
         'script: sends both ways, clock steps, disconnect() by client or server at any point '
@@ -42,6 +42,18 @@ http_fault = st.one_of(
                            'body': st.sampled_from(['garbage', '', '4hello', '6', '\x1e', '0', '0{',
                                                     '1', 'b', '٣', '0[1,2]'])}),
 )
+post_fault = st.one_of(
+    st.fixed_dictionaries({'on': st.just('http-post'), 'n': st.sampled_from([0, 0, 0, 1, 1, 2, 3]),
+                           'kind': st.sampled_from(['refuse', 'drop-after'])}),
+    st.fixed_dictionaries({'on': st.just('http-post'), 'n': st.sampled_from([0, 0, 0, 1, 1, 2, 3]), 'kind': st.just('status'),
+                           'status': st.sampled_from([400, 413, 500, 301, 199]),
+                           'body': st.sampled_from(['oops', '{"message": "no"}', '']),
+                           'ctype': st.sampled_from(['text/plain', 'application/json'])}),
+)
+# from the k-th request on the peer is a server that never times a client out: GETs are answered
+# with a PING every 2.5 seconds, POSTs with ok (or as a fault addressed to that POST says)
+lenient_fault = st.fixed_dictionaries({'on': st.just('http'), 'from': st.integers(2, 4),
+                                       'kind': st.just('lenient'), 'every': st.just(2.5)})
 ws_fault = st.one_of(
     st.fixed_dictionaries({'on': st.just('ws-connect'), 'n': st.integers(0, 1),
                            'kind': st.sampled_from(['refuse', 'bad-status'])}),
@@ -67,7 +79,11 @@ def case_st(draw):
         'impl': draw(st.sampled_from(['thread', 'async'])),
         'transports': draw(st.sampled_from([None, None, ['polling'], ['websocket']])),
         'I': draw(st.sampled_from([2.5, 5, 25])), 'T': draw(st.sampled_from([2.5, 5, 20])),
-        'faults': draw(st.lists(st.one_of(http_fault, ws_fault), max_size=2)),
+        'faults': draw(st.one_of(
+            st.lists(st.one_of(http_fault, ws_fault, post_fault), max_size=2),
+            st.lists(st.one_of(http_fault, ws_fault, post_fault), max_size=2),
+            st.lists(st.one_of(http_fault, ws_fault, post_fault), max_size=2),
+            st.tuples(lenient_fault, post_fault).map(list))),
         'in_handler': draw(st.sampled_from([None, None, None, 'connect', 'message', 'disconnect'])),
         'server_greets': draw(st.sampled_from([0, 0, 1, 2])),
         'steps': draw(st.lists(step_st, max_size=6)),
@@ -210,6 +226,23 @@ def check_case(case, ctx=None):
                 if cl.state == 'disconnected':
                     if do_connect('again'):
                         cycles += 1
+        # a failed POST is a failed transport: the connection it belonged to ends
+        failed_posts = [f for f in h.faults.fired
+                        if f.get('method') == 'POST' and f.get('state') == 'connected' and
+                        f['kind'] in ('refuse', 'drop-after', 'status')]
+        if failed_posts:
+            # (a real server ends the session by heartbeat in the end; one that never gives up
+            # - fault 'lenient' - leaves it to the client)
+            bound = I + T + max(I, T) + 12
+            h.advance(bound)
+            tf = failed_posts[-1]['t']
+            ends = [t for t, e, _ in h.log.events if e == 'disconnect' and t >= tf]
+            if not ends:
+                raise V(impl, 'failed-post-did-not-end-connection',
+                        '%s|state=%s' % (failed_posts[-1]['kind'], cl.state),
+                        'a POST failed (%s) at %.3f; %.1fs later no disconnect event has fired, '
+                        'state %r' % (failed_posts[-1]['kind'], tf - 2 ** 20, bound, cl.state),
+                        rep)
         # final quiescence: end whatever is still up, then look at the wreckage
         h.faults.disabled = True
         if cl.state == 'connected':
@@ -301,6 +334,8 @@ def check_case(case, ctx=None):
                    'transports-%s' % ('default' if case['transports'] is None
                                       else case['transports'][0])]
             cls += ['fault-' + k for k in sorted(set(fired))]
+            if failed_posts:
+                cls.append('post-failed-while-connected')
             if fired_ih:
                 cls.append('disconnect-in-%s-handler' % ih)
             if cycles >= 2:
